@@ -272,7 +272,7 @@ def check_chunk(item):
         src, spec = build_program(chunk)
     if kind == "div":
         kind = "divp"
-    acc = loader.compile_source(src, argv)
+    acc = loader.compile_source(src, argv, timeout=240)       # chunk programs are large; a loaded machine must not turn into a verdict
     if acc.kind != "accepted":
         res["status"] = acc.kind
         res["detail"] = acc.detail + " " + getattr(acc, "message", "")[:200]
@@ -427,6 +427,9 @@ def run(tier, seed):
     for idx, r in pmap(check_chunk, items, timeout=900, chunksize=1, stop=ck.enough):
         if "harness_error" in r or "harness_timeout" in r:
             harness_fail("%s on chunk %d" % (r, idx))
+        if r["status"] == "timeout":
+            ck.cap("chunk %d: compilation exceeded 240 s (not a verdict)" % idx)
+            continue
         if r["status"] != "ok":
             stats["rejected_chunks"] += 1
             # a chunk of well-typed expressions must compile: locate the offender by bisection is overkill; report the chunk
